@@ -4,17 +4,17 @@ import json, os, subprocess
 VERIF = os.path.dirname(os.path.abspath(__file__))
 
 CLAIMED = {
-    "C01": ("hist", "seeded search over operation histories (several live worlds, entry points, batching, failing requests, allocation faults) with a stateless reference oracle; minimised replay",
+    "C01": ("hist", "seeded search over operation histories (several live worlds, entry points, batching, failing requests, allocation faults) with a stateless reference oracle; a sample of runs re-executed alone in fresh processes and compared with what a worker answered after its earlier runs (process-wide state), violations replayed as histories of scenarios; simulated allocator that recycles addresses; minimised replay",
             "3 (C01)"),
     "C07": ("hist+buggify", "buggify-style seeded skipping of fast paths (hooks S1-S8) on a twin world, placed points along generated slabs/faults/depth surfaces, twin-equality oracle; further lives of the twin pair (destroyed and rebuilt from a sibling file, optionally on a simulated allocator that recycles addresses) asked the predecessors' last points; minimised replay",
             "3 (C07), 2.6"),
     "C12": ("ctor", "world construction over the simulated file layer: structural mutators on corpus/generated documents, seeded fault plans (torn/corrupted/short/interrupted/failing reads, file changing between the two opens, open failure), allocation faults, raw byte strings, formatting variants; oracle = outcome in {built, std::exception with message} under ASan/UBSan, published-schema/length/version/JSON rules reject, intact file still builds afterwards; file rewritten between two constructions (simulated stat); concurrent constructions under the seeded scheduler and ThreadSanitizer, including cold starts (the scenario is the first thing a fresh process does); minimised replay",
             "3 (C12)"),
-    "C14": ("sched", "deterministic scheduler (real pthreads parked/released one at a time through raw futexes in an uninstrumented TU, so ThreadSanitizer still sees the races) deciding every switch of 2-32 client threads and of gwb-grid's worker threads at spawn/join/exit/op boundaries the yield points inside World::properties and World::World and, in the ThreadSanitizer build, every n-th control-flow edge of the library (coverage guards turned into seeded preemption points); oracles: sequential reference, TSan report count, -j N bytes == -j 1 bytes, join-before-write; seeded strategies (random, burst, round robin, PCT, starve-one); minimised replay",
+    "C14": ("sched", "deterministic scheduler (real pthreads parked/released one at a time through raw futexes in an uninstrumented TU, so ThreadSanitizer still sees the races) deciding every switch of 2-32 client threads and of gwb-grid's worker threads at spawn/join/exit/op boundaries the yield points inside World::properties and World::World and, in the ThreadSanitizer build, every n-th control-flow edge of the library (coverage guards turned into seeded preemption points); mutex locks of the code under test routed through the scheduler; oracles: sequential reference for property and distance answers, TSan report count, -j N bytes == -j 1 bytes, join-before-write; seeded strategies (random, burst, round robin, PCT, starve-one); minimised replay",
             "3 (C14), 2.3"),
-    "C15": ("hist", "seeded histories on worlds with hidden RNG state: twins interleaved differently with other worlds, mt19937 engine-state model checked after every operation, validity invariants; minimised replay",
+    "C15": ("hist", "seeded histories on worlds with hidden RNG state: twins interleaved differently with other worlds, mt19937 engine state checked at creation, validity invariants (rotations, normalised and fixed sizes, bounds), concurrent twins under the scheduler, fresh-process cross-check of a sample of runs; minimised replay",
             "3 (C15)"),
-    "C16": ("hist+fs", "seeded histories through native/C/C++ handles created in twins; responses, failures and the simulated file layer's effect trace of create_world compared; open-failure faults; minimised replay",
+    "C16": ("hist+fs", "seeded histories through native/C/C++ handles created in twins; responses, failures and the simulated file layer's effect trace of create_world compared; open-failure faults, concurrent clients of one handle under the scheduler, fresh-process cross-check of a sample of runs; minimised replay",
             "3 (C16)"),
     "C17": ("tool", "gwb-dat's main() run in-process on the simulated file layer with generated data files (grammar incl. comment/option/malformed lines) delivered whole, torn, corrupted, in short reads or with EINTR; stdout compared column-by-header-name with a reference formatter over the library's answers; minimised replay",
             "3 (C17)"),
